@@ -381,18 +381,17 @@ impl HomopolyPairHMM {
                         min_edit_dist_top.saturating_add(1),
                     )
                 };
-
-                if free_end_gap_x {
-                    // Cache column probabilities or simply record the last probability.
-                    // We can put all of them in one array since we simply have to sum in the end.
-                    // This is also good for numerical stability.
-                    prob_cols.extend(MATCH_STATES.iter().map(|&s| v[curr][s][len_y]));
-                    prob_cols.extend(HOP_Y_STATES.iter().map(|&s| v[curr][s][len_y]));
-                    prob_cols.extend(HOP_X_STATES.iter().map(|&s| v[curr][s][len_y]));
-                    prob_cols.push(v[curr][GapY][len_y]);
-                    // TODO check removing this (we don't want open gaps in x):
-                    prob_cols.push(v[curr][GapX][len_y]);
-                }
+            }
+            if free_end_gap_x {
+                // Cache column probabilities or simply record the last probability.
+                // We can put all of them in one array since we simply have to sum in the end.
+                // This is also good for numerical stability.
+                prob_cols.extend(MATCH_STATES.iter().map(|&s| v[curr][s][len_y]));
+                prob_cols.extend(HOP_Y_STATES.iter().map(|&s| v[curr][s][len_y]));
+                prob_cols.extend(HOP_X_STATES.iter().map(|&s| v[curr][s][len_y]));
+                prob_cols.push(v[curr][GapY][len_y]);
+                // TODO check removing this (we don't want open gaps in x):
+                prob_cols.push(v[curr][GapX][len_y]);
             }
             mem::swap(&mut prev, &mut curr);
             for &s in &MATCH_STATES {
